@@ -226,6 +226,10 @@ func genMuxFault(seed uint64, n int, maxOps int, emit func(interface{})) {
 				base.Ops = append(base.Ops, muxOp{Op: "data", PID: 256, Len: 184 - afTotalLen(af2) - pesHeaderLen(h2) - []int{0, 1, 2, 7}[r.intn(4)], Hdr: h2, AF: af2})
 			}
 		}
+		// every history ends with two more units on the stream: what a failure left behind shows in the calls after it
+		for i := 0; i < 2; i++ {
+			base.Ops = append(base.Ops, muxOp{Op: "data", PID: 256, Len: r.pick(1, 100, 184, 300), Hdr: "pts", AF: "none"})
+		}
 		W := countWrites(base)
 		for at := 0; at < W; at++ {
 			modes := []string{"once", "perm"}
